@@ -17,6 +17,7 @@
 from types import FrameType
 from typing import Optional, TYPE_CHECKING
 
+import deep.logging
 from deep.processor.context.action_context import ActionContext
 from deep.processor.context.action_results import ActionResult, ActionCallback
 
@@ -42,7 +43,10 @@ class SpanActionCallback(ActionCallback):
         :return: True, to keep this callback until next match.
         """
         for span in self.__spans:
-            span.close()
+            try:
+                span.close()
+            except Exception:
+                deep.logging.exception("Cannot close span %s", span)
         return False
 
 
